@@ -143,6 +143,26 @@ func refReadValue(s string) (*big.Int, bool) {
 }
 
 func drawNumberString(t *rapid.T, forValue bool) string {
+	if !forValue && uniformInt(t, 5, "mapped") == 0 {
+		// an address inside (or just outside) the program image, in a random base
+		a := uint64(rvDataBase) - 4 + uint64(uniformInt(t, rvDataLen+8, "mappedOff"))
+		if uniformInt(t, 4, "inCode") == 0 {
+			a = uint64(rvCodeBase) + uint64(uniformInt(t, 16, "codeOff"))
+		}
+		switch uniformInt(t, 6, "mappedBase") {
+		case 0:
+			return fmt.Sprintf("0x%x", a)
+		case 1:
+			return fmt.Sprintf("0X%X", a)
+		case 2:
+			return fmt.Sprintf("0b%b", a)
+		case 3:
+			return fmt.Sprintf("0B%b", a)
+		case 4:
+			return fmt.Sprintf("0%o", a)
+		}
+		return fmt.Sprintf("%d", a)
+	}
 	if uniformInt(t, 4, "hostile") == 0 {
 		return hostileTokens[uniformInt(t, len(hostileTokens), "hostileIdx")]
 	}
